@@ -76,6 +76,14 @@ def conversations(tier):
                       'conns': [{'status': {'mode': 'reply',
                                             'json': status_json(proto)}},
                                 {'login': [['success']], 'play': pl}]})
+        both = {'status': {'mode': 'reply', 'json': status_json(proto)},
+                'login': [['success']], 'play': pl}
+        convs.append({'name': 'status-then-login[every-status-query-cut]/%d'
+                              % proto,
+                      'call': 'connect', 'allowed': [proto, other],
+                      'initial': other, 'fault_conn': 0,
+                      'cut_every_status': True,
+                      'conns': [copy.deepcopy(both) for _ in range(4)]})
         convs.append({'name': 'status-then-login[login]/%d' % proto,
                       'call': 'connect', 'allowed': [proto, other],
                       'initial': other, 'fault_conn': 1,
@@ -111,6 +119,9 @@ def make_scenario(conv, k, variant=None):
           'rand_seed': 12345}
     if k is not None:
         sc['server']['conns'][conv['fault_conn']]['cut'] = k
+        if conv.get('cut_every_status'):
+            # a server that keeps failing the same way on reconnection
+            sc['server']['status_cut'] = k
     if variant:
         variant = dict(variant)
         mode = variant.pop('cut_mode', None)
@@ -241,6 +252,10 @@ def check(scenario, w, st, res):
     # liveness: bounded termination
     ob()
     if sim.end_state == 'inconclusive':
+        # bounded termination IS the property here; every run of the
+        # reference conversations needs only a few thousand steps
+        V.append(('C15/no-termination-within-step-budget',
+                  {'tcp_connections': len(w.net.conns)}))
         return
     if sim.end_state != 'done':
         if sim.fail_fast:
